@@ -84,6 +84,29 @@ class ExtractError(Exception):
     pass
 
 
+_probe_tmp = []
+
+
+def probe_dir():
+    """Directory of the probe crate, with /repo's lock file; when a scratch copy of the
+    repository is analysed (VERIF_REPO), a temporary copy whose dependency points there."""
+    src = os.path.join(VERIF, "probe")
+    if REPO == "/repo":
+        shutil.copyfile(os.path.join(REPO, "Cargo.lock"), os.path.join(src, "Cargo.lock"))
+        return src
+    d = tempfile.mkdtemp(prefix="shred-probe-copy.")
+    _probe_tmp.append(d)
+    shutil.copytree(os.path.join(src, "src"), os.path.join(d, "src"))
+    with open(os.path.join(src, "Cargo.toml")) as f:
+        toml = f.read().replace('path = "/repo"', 'path = "%s"' % REPO)
+    with open(os.path.join(d, "Cargo.toml"), "w") as f:
+        f.write(toml)
+    shutil.copyfile(os.path.join(REPO, "Cargo.lock"), os.path.join(d, "Cargo.lock"))
+    import atexit
+    atexit.register(lambda: shutil.rmtree(d, ignore_errors=True))
+    return d
+
+
 def extract(config, no_cache=False, log=None):
     """Return (dir with fact files, info dict)."""
     t0 = time.time()
@@ -106,8 +129,7 @@ def extract(config, no_cache=False, log=None):
         target = tempfile.mkdtemp(prefix="shred-facts-target.")
         try:
             if config == "probe":
-                cwd = os.path.join(VERIF, "probe")
-                shutil.copyfile(os.path.join(REPO, "Cargo.lock"), os.path.join(cwd, "Cargo.lock"))
+                cwd = probe_dir()
                 args = ["--lib"]
                 crates = "shred_probe"
             else:
